@@ -17,7 +17,7 @@ ID = "C09"
 RULE = (
     "Exhaustive enumeration of (a) every intercepted Unit.equals declaration of all shipped modules: "
     "tree declarations define sizes, every other declaration closes a fundamental cycle and is "
-    "checked by its exact residual (tolerance 1e-5 x total exponent degree); the same unordered "
+    "checked by its exact residual (tolerance 1e-5 x exponent degree of the declared units, the larger of the two spellings); the same unordered "
     "pair declared twice is checked as a cycle of length 2; (b) every named unit of physical "
     "dimension: oracle connectivity to the coherent SI unit of its dimension and library conversion "
     "to and from it against the exact size ratio. Non-trivial: redundant (cycle-closing) "
@@ -116,7 +116,9 @@ def run_case(case) -> core.Outcome:
         out.classes.append("decl:redundant")
         out.nontrivial = f"decl|{case['i']}|{label}"
         out.sample = {"declaration": label, "residual": float(res["residual"])}
-        deg = domain.degree(rec["a"].unit, m.One) + domain.degree(rec["b"].unit, m.One)
+        # "1e-5 relative per unit of exponent degree" of the two units the declaration links: they
+        # have one dimension but may be spelt with different numbers of factors, the larger counts
+        deg = max(domain.degree(rec["a"].unit, m.One), domain.degree(rec["b"].unit, m.One))
         if not res["consistent_roots"]:
             out.fail(f"C09:edge:dimensionally-inconsistent:{label}", f"{label} relates different root units")
         elif abs(res["residual"]) > Fraction(1, 10**5) * max(deg, 1):
